@@ -165,3 +165,7 @@ pub fn operand(p: BigUint, extra: Vec<(String, BigUint)>) -> BoxedStrategy<Int> 
 pub fn is_boundary(i: &Int) -> bool {
     i.class != "random"
 }
+pub mod curvemodel;
+
+pub mod c12_msm;
+pub mod c11core;
